@@ -34,7 +34,8 @@ def plan(tier, rnd):
         per_tuple = 40
     for e in ENVS:
         for chunk in chunks(pairs, 14):
-            jobs.append({"mode": "exhaustive", "tuples": chunk, "env": e, "kind": "pairs"})
+            jobs.append({"mode": "exhaustive", "tuples": chunk, "env": e, "kind": "pairs", "seed": env.seed(),
+                         "max_interleavings": 1200 if tier == "quick" else None})
         for chunk in chunks(tri, 1):
             jobs.insert(0, {"mode": "exhaustive", "tuples": chunk, "env": e, "kind": "triples", "seed": env.seed(),
                             "max_interleavings": 4000 if tier == "quick" else None})
